@@ -33,8 +33,8 @@ def OpPc (cells : Nat → Cell) (t : Nat) (ptr : Option Ptr) : Op → Nat → Pr
   | .get l i, 1 => Held cells t ptr l i
   | .ffiGet l i, 1 => Held cells t ptr l i
   | .eq a b, 1 => a ≠ b ∧ (cells (eqFirst Facts.guarded a b)).owner = some t
-  | .concat a _, 1 => (cells a).owner = some t
-  | .concat _ _, 2 => True
+  | .concat a b, 1 => (cells (min a b)).owner = some t
+  | .concat a b, 2 => a ≠ b ∧ (cells (min a b)).owner = some t ∧ (cells (max a b)).owner = some t
   | _, _ => False
 
 def PcOK (cells : Nat → Cell) (t : Nat) (th : Thread) : Prop :=
@@ -96,8 +96,8 @@ theorem opPc_frame {u t : Nat} {c c' : Nat → Cell} {ptr : Option Ptr} (hf : Fr
   | .get l i, 1, h => exact held_frame hf ht h
   | .ffiGet l i, 1, h => exact held_frame hf ht h
   | .eq a b, 1, h => exact ⟨h.1, (hf _ t ht h.2).1⟩
-  | .concat a _, 1, h => exact (hf a t ht h).1
-  | .concat _ _, 2, _ => simp [OpPc]
+  | .concat a b, 1, h => exact (hf _ t ht h).1
+  | .concat a b, 2, h => exact ⟨h.1, (hf _ t ht h.2.1).1, (hf _ t ht h.2.2).1⟩
 
 theorem pcOK_frame {u t : Nat} {c c' : Nat → Cell} {th : Thread} (hf : Frame u c c')
     (ht : t ≠ u) (h : PcOK c t th) : PcOK c' t th := by
@@ -227,6 +227,107 @@ theorem clone_good {t : Nat} {cells : Nat → Cell} {op : Op} {l i : Nat} {o : S
     rcases hop with h | h <;> subst h <;> simp [specOp, this, absOf_setOwner]
   · intro a b hc; exact absOf_setOwner _ _ _
 
+theorem owner_setOwner (c : Nat → Cell) (x : Nat) (o : Option Nat) (l : Nat) :
+    (setOwner c x o l).owner = if l = x then o else (c l).owner := by
+  by_cases h : l = x
+  · subst h; simp [setOwner]
+  · simp [setOwner, h]
+
+theorem Frame.trans {u : Nat} {c c' c'' : Nat → Cell} (h1 : Frame u c c') (h2 : Frame u c' c'') :
+    Frame u c c'' := by
+  intro l t ht hl
+  obtain ⟨ho, hr⟩ := h1 l t ht hl
+  obtain ⟨ho', hr'⟩ := h2 l t ht ho
+  exact ⟨ho', by rw [hr', hr]⟩
+
+theorem extend_elems (r : RawList) (other : List Nat) : (r.extend other).1.elems = r.elems ++ other := by
+  unfold RawList.extend
+  split
+  · rename_i h; subst h; simp
+  · simp [reserve_elems]
+
+theorem concatCopy_elems (ea eb : List Nat) : (concatCopy ea eb).1.elems = ea ++ eb := by
+  unfold concatCopy
+  simp only
+  rw [extend_elems, extend_elems]
+  rfl
+
+theorem min_ne_max {a b : Nat} (h : a ≠ b) : min a b ≠ max a b := by
+  simp only [Nat.min_def, Nat.max_def]
+  split <;> omega
+
+theorem owner_setOwner_ne (c : Nat → Cell) (x l : Nat) (o : Option Nat) (h : l ≠ x) :
+    (setOwner c x o l).owner = (c l).owner := by
+  rw [owner_setOwner]; simp [h]
+
+theorem owner_setOwner_same (c : Nat → Cell) (x : Nat) (o : Option Nat) :
+    (setOwner c x o x).owner = o := by
+  rw [owner_setOwner]; simp
+
+/-- the steps of `concat` (both operands held): `StepGood`, and the completing
+    step *is* the sequential `concat` applied at that moment -/
+theorem concat_good {t : Nat} {cells : Nat → Cell} {ptr : Option Ptr} {a b pc : Nat} {o : StepOut}
+    (hpc : OpPc cells t ptr (.concat a b) pc) (h : concatAtomicStep t cells a b pc = some o) :
+    StepGood t cells (.concat a b) pc o ∧
+    (∀ r, o.next = .done r → specOp (absOf cells) (.concat a b) = (r, absOf o.cells)) := by
+  rcases pc with _ | _ | _ | n
+  · simp only [concatAtomicStep] at h
+    split at h
+    · rename_i hfree
+      have hfree' := (isFree_iff _ _).1 hfree
+      cases h
+      refine ⟨stepGood_cont _ (frame_setOwner_free _ hfree') (by simp)
+        (by simp [OpPc, owner_setOwner_same]) (absOf_setOwner _ _ _), by simp⟩
+    · cases h
+  · simp only [concatAtomicStep] at h
+    split at h
+    · rename_i hab
+      subst hab
+      have hown : (cells a).owner = some t := by simpa [OpPc] using hpc
+      have he := concatCopy_elems (cells a).raw.elems (cells a).raw.elems
+      generalize concatCopy (cells a).raw.elems (cells a).raw.elems = pr at h he
+      obtain ⟨acc', re⟩ := pr
+      cases h
+      refine ⟨stepGood_done _ _ (frame_setOwner_own _ hown) ?_ (by simp)
+        (fun hc => absurd rfl (hc a a)) (fun _ _ _ => absOf_setOwner _ _ _), ?_⟩
+      · intro e he'; split at he' <;> simp at he'; subst he'; simp
+      · intro r hr
+        simp only [Next.done.injEq] at hr
+        subst hr
+        simp only at he
+        simp [specOp, absOf_setOwner, he, absOf]
+    · rename_i hab
+      split at h
+      · rename_i hfree
+        have hfree' := (isFree_iff _ _).1 hfree
+        have hown : (cells (min a b)).owner = some t := by simpa [OpPc] using hpc
+        cases h
+        refine ⟨stepGood_cont _ (frame_setOwner_free _ hfree') (by simp) ?_ (absOf_setOwner _ _ _), by simp⟩
+        refine ⟨hab, ?_, owner_setOwner_same _ _ _⟩
+        rw [owner_setOwner_ne _ _ _ _ (min_ne_max hab)]
+        exact hown
+      · cases h
+  · obtain ⟨hab, hmin, hmax⟩ := hpc
+    simp only [concatAtomicStep] at h
+    have he := concatCopy_elems (cells a).raw.elems (cells b).raw.elems
+    generalize concatCopy (cells a).raw.elems (cells b).raw.elems = pr at h he
+    obtain ⟨acc', re⟩ := pr
+    cases h
+    have hf : Frame t cells (setOwner (setOwner cells (min a b) none) (max a b) none) := by
+      refine Frame.trans (frame_setOwner_own _ hmin) (frame_setOwner_own _ ?_)
+      rw [owner_setOwner_ne _ _ _ _ (fun h => min_ne_max hab h.symm)]
+      exact hmax
+    have ha : absOf (setOwner (setOwner cells (min a b) none) (max a b) none) = absOf cells := by
+      rw [absOf_setOwner, absOf_setOwner]
+    refine ⟨stepGood_done _ _ hf ?_ (by simp) (fun hc => absurd rfl (hc a b)) (fun _ _ _ => ha), ?_⟩
+    · intro e he'; split at he' <;> simp at he'; subst he'; simp
+    · intro r hr
+      simp only [Next.done.injEq] at hr
+      subst hr
+      simp only at he
+      simp [specOp, ha, he, absOf]
+  · simp [OpPc] at hpc
+
 theorem opStep_good {F : Facts} (hF : F = Facts.guarded) {t : Nat} {cells : Nat → Cell}
     {ptr : Option Ptr} {acc : RawList} {op : Op} {pc : Nat} {o : StepOut}
     (hpc : OpPc cells t ptr op pc) (h : opStep F t cells ptr acc op pc = some o) :
@@ -330,38 +431,23 @@ theorem opStep_good {F : Facts} (hF : F = Facts.guarded) {t : Nat} {cells : Nat 
         · cases h
       | succ m => simp [OpPc] at hpc
   | concat a b =>
-    cases pc with
-    | zero =>
-      simp only [opStep] at h
-      split at h
-      · rename_i hfree
-        have hfree' := (isFree_iff _ _).1 hfree
-        cases h
-        exact stepGood_cont _ (frame_setOwner_free _ hfree') (by simp)
-          (by simp [OpPc, setOwner]) (absOf_setOwner _ _ _)
-      · cases h
-    | succ n =>
-      cases n with
-      | zero =>
-        simp only [opStep] at h
-        generalize (RawList.extend {} (cells a).raw.elems) = pr at h
-        obtain ⟨acc', re⟩ := pr
-        cases h
-        refine stepGood_cont _ (frame_setOwner_own _ hpc) ?_ (by simp [OpPc]) (absOf_setOwner _ _ _)
-        intro e he; split at he <;> simp at he; subst he; simp
-      | succ m =>
-        cases m with
-        | zero =>
-          simp only [opStep] at h
-          split at h
-          · generalize (acc.extend (cells b).raw.elems) = pr at h
-            obtain ⟨acc', re⟩ := pr
-            cases h
-            refine stepGood_done _ _ (Frame.refl _ _) ?_ (by simp) ?_ (fun _ _ _ => rfl)
-            · intro e he; split at he <;> simp at he; subst he; simp
-            · intro hc; exact absurd rfl (hc a b)
-          · cases h
-        | succ k => simp [OpPc] at hpc
+    have h' : concatAtomicStep t cells a b pc = some o := by
+      simpa [opStep, Facts.guarded] using h
+    exact (concat_good hpc h').1
+
+/-- the step that completes an operation *is* the sequential operation applied
+    at that moment (every operation, `concat` included) -/
+theorem opStep_sim {F : Facts} (hF : F = Facts.guarded) {t : Nat} {cells : Nat → Cell}
+    {ptr : Option Ptr} {acc : RawList} {op : Op} {pc : Nat} {o : StepOut}
+    (hpc : OpPc cells t ptr op pc) (h : opStep F t cells ptr acc op pc = some o)
+    (r : Res) (hr : o.next = .done r) : specOp (absOf cells) op = (r, absOf o.cells) := by
+  by_cases hc : ∃ a b, op = .concat a b
+  · obtain ⟨a, b, rfl⟩ := hc
+    subst hF
+    have h' : concatAtomicStep t cells a b pc = some o := by
+      simpa [opStep, Facts.guarded] using h
+    exact (concat_good hpc h').2 r hr
+  · exact (opStep_good hF hpc h).sim r hr (fun a b hab => hc ⟨a, b, hab⟩)
 
 /-! ### one step of the whole system -/
 
@@ -373,8 +459,7 @@ inductive HistStep (t : Nat) (s s' : State) : Prop
   /-- the operation completes with result `r`: it is the sequential operation applied now -/
   | completes (op : Op) (rest : List Op) (r : Res) (hp : (s.threads t).prog = op :: rest)
       (hh : s'.hist = s.hist ++ [⟨t, op, r⟩]) (hne : r ≠ .uaf)
-      (hsim : (∀ a b, op ≠ .concat a b) → specOp (abs s) op = (r, abs s'))
-      (hc : ∀ a b, op = .concat a b → abs s' = abs s)
+      (hsim : specOp (abs s) op = (r, abs s'))
       (hr : ∀ u, (s'.threads u).results = (s.threads u).results ++ (if u = t then [r] else []))
 
 structure StepFacts (t : Nat) (s s' : State) : Prop where
@@ -439,7 +524,7 @@ theorem step_facts {F : Facts} (hF : F = Facts.guarded) {t : Nat} {s s' : State}
               split <;> simp [OpPc]
             · simp only [upd_other _ _ _ _ hu]
               exact pcOK_frame g.frame hu (hinv u)
-          · refine .completes op rest r hprog rfl (g.res r hnext) (g.sim r hnext) g.absConcat ?_
+          · refine .completes op rest r hprog rfl (g.res r hnext) (opStep_sim hF hpc hop r hnext) ?_
             intro u
             by_cases hu : u = t
             · subst hu; simp
@@ -476,8 +561,7 @@ structure RunFacts (s s' : State) : Prop where
   hist : ∃ ds, s'.hist = s.hist ++ ds ∧ (∀ d ∈ ds, d.res ≠ .uaf) ∧
     (∀ d ∈ ds, d.op ∈ (s.threads d.tid).prog) ∧
     (∀ u, (s'.threads u).results = (s.threads u).results ++ ((ds.filter (·.tid = u)).map (·.res))) ∧
-    ((∀ d ∈ ds, ∀ a b, d.op ≠ .concat a b) →
-      specRun (abs s) (ds.map (·.op)) = (ds.map (·.res), abs s'))
+    specRun (abs s) (ds.map (·.op)) = (ds.map (·.res), abs s')
   trace : ∃ tr, s'.trace = s.trace ++ tr ∧ ∀ e ∈ tr, ∀ x ∈ e.2, x ≠ Ev.outside ∧ x ≠ Ev.stale
   progs : ∀ u op, op ∈ (s'.threads u).prog → op ∈ (s.threads u).prog
 
@@ -507,8 +591,8 @@ theorem run_facts {F : Facts} (hF : F = Facts.guarded) :
         | quiet hh ha hr =>
           refine ⟨ds, by rw [hds, hh], hne, fun d hd => f1.progs _ _ (hmem d hd), ?_, ?_⟩
           · intro u; rw [hres u, hr u]
-          · intro hc; rw [← ha]; exact hsim hc
-        | completes op rest' r hp hh hne' hsim' hc hr =>
+          · rw [← ha]; exact hsim
+        | completes op rest' r hp hh hne' hsim' hr =>
           refine ⟨⟨t, op, r⟩ :: ds, by rw [hds, hh]; simp, ?_, ?_, ?_, ?_⟩
           · intro d hd
             rcases List.mem_cons.1 hd with h' | h'
@@ -524,11 +608,7 @@ theorem run_facts {F : Facts} (hF : F = Facts.guarded) :
             · subst hu; simp
             · have : ¬ t = u := fun h => hu h.symm
               simp [hu, this]
-          · intro hc
-            have hop : ∀ a b, op ≠ .concat a b := hc ⟨t, op, r⟩ (by simp)
-            have h1 := hsim' hop
-            have h2 := hsim (fun d hd => hc d (List.mem_cons_of_mem _ hd))
-            simp only [List.map_cons, specRun, h1, h2]
+          · simp only [List.map_cons, specRun, hsim', hsim]
       · intro e he
         rcases List.mem_cons.1 he with h' | h'
         · subst h'; exact hevg
@@ -590,14 +670,9 @@ def HoldsOp : Op → Nat → Nat → Prop
   | .get l' _, 1, l => l' = l
   | .ffiGet l' _, 1, l => l' = l
   | .eq a b, 1, l => a ≠ b ∧ eqFirst Facts.guarded a b = l
-  | .concat a _, 1, l => a = l
+  | .concat a b, 1, l => min a b = l
+  | .concat a b, 2, l => a ≠ b ∧ (min a b = l ∨ max a b = l)
   | _, _, _ => False
-
-theorem owner_setOwner (c : Nat → Cell) (x : Nat) (o : Option Nat) (l : Nat) :
-    (setOwner c x o l).owner = if l = x then o else (c l).owner := by
-  by_cases h : l = x
-  · subst h; simp [setOwner]
-  · simp [setOwner, h]
 
 theorem owner_setRaw (c : Nat → Cell) (x : Nat) (r : RawList) (l : Nat) :
     (setRaw c x r l).owner = (c l).owner := by
@@ -648,6 +723,74 @@ theorem ownerOK_release {t : Nat} {cells : Nat → Cell} {op : Op} {pc : Nat} {o
   · rename_i hl
     refine Or.inl ⟨?_, h⟩
     intro hu; subst hu; exact hl (honly l h)
+
+/-- `t` acquires `x` (free before) while keeping what it holds -/
+theorem ownerOK_acquire_more {t : Nat} {cells : Nat → Cell} {op : Op} {pc : Nat} {o : StepOut} {x : Nat}
+    (hc : o.cells = setOwner cells x (some t)) (hn : o.next = .cont) (hh : HoldsOp op (pc + 1) x)
+    (hkeep : ∀ l, (cells l).owner = some t → HoldsOp op (pc + 1) l) : OwnerOK t cells op pc o := by
+  intro l u h
+  rw [hc, owner_setOwner] at h
+  split at h
+  · rename_i hl; subst hl; cases h; exact Or.inr ⟨rfl, hn, hh⟩
+  · by_cases hu : u = t
+    · subst hu; exact Or.inr ⟨rfl, hn, hkeep l h⟩
+    · exact Or.inl ⟨hu, h⟩
+
+/-- `t` releases `x` and `y`, the only mutexes it held -/
+theorem ownerOK_release2 {t : Nat} {cells : Nat → Cell} {op : Op} {pc : Nat} {o : StepOut} {x y : Nat}
+    (hc : o.cells = setOwner (setOwner cells x none) y none)
+    (honly : ∀ l, (cells l).owner = some t → l = x ∨ l = y) : OwnerOK t cells op pc o := by
+  intro l u h
+  rw [hc, owner_setOwner] at h
+  split at h
+  · cases h
+  · rename_i hy
+    rw [owner_setOwner] at h
+    split at h
+    · cases h
+    · rename_i hx
+      refine Or.inl ⟨?_, h⟩
+      intro hu; subst hu
+      rcases honly l h with h' | h'
+      · exact hx h'
+      · exact hy h'
+
+theorem concat_owner {t : Nat} {cells : Nat → Cell} {ptr : Option Ptr} {a b pc : Nat} {o : StepOut}
+    (hpc : OpPc cells t ptr (.concat a b) pc)
+    (hown : ∀ l, (cells l).owner = some t → HoldsOp (.concat a b) pc l)
+    (h : concatAtomicStep t cells a b pc = some o) : OwnerOK t cells (.concat a b) pc o := by
+  rcases pc with _ | _ | _ | n
+  · have hn : ∀ l, (cells l).owner ≠ some t := fun l hl => by simpa [HoldsOp] using hown l hl
+    simp only [concatAtomicStep] at h
+    split at h
+    · cases h; exact ownerOK_acquire rfl rfl (by simp [HoldsOp]) hn
+    · cases h
+  · simp only [concatAtomicStep] at h
+    split at h
+    · rename_i hab
+      subst hab
+      generalize concatCopy (cells a).raw.elems (cells a).raw.elems = pr at h
+      obtain ⟨acc', re⟩ := pr
+      cases h
+      exact ownerOK_release rfl (fun l' hl' => by simpa [HoldsOp] using (hown l' hl').symm)
+    · rename_i hab
+      split at h
+      · cases h
+        refine ownerOK_acquire_more rfl rfl ⟨hab, Or.inr rfl⟩ ?_
+        intro l hl
+        exact ⟨hab, Or.inl (by simpa [HoldsOp] using hown l hl)⟩
+      · cases h
+  · simp only [concatAtomicStep] at h
+    generalize concatCopy (cells a).raw.elems (cells b).raw.elems = pr at h
+    obtain ⟨acc', re⟩ := pr
+    cases h
+    refine ownerOK_release2 rfl ?_
+    intro l hl
+    have := (hown l hl).2
+    rcases this with h' | h'
+    · exact Or.inl h'.symm
+    · exact Or.inr h'.symm
+  · simp [OpPc] at hpc
 
 theorem opStep_owner {F : Facts} (hF : F = Facts.guarded) {t : Nat} {cells : Nat → Cell}
     {ptr : Option Ptr} {acc : RawList} {op : Op} {pc : Nat} {o : StepOut}
@@ -756,36 +899,10 @@ theorem opStep_owner {F : Facts} (hF : F = Facts.guarded) {t : Nat} {cells : Nat
         · cases h
       | succ m => simp [OpPc] at hpc
   | concat a b =>
-    cases pc with
-    | zero =>
-      have hn := none_of (by intro l; simp [HoldsOp])
-      simp only [opStep] at h
-      split at h
-      · cases h; exact ownerOK_acquire rfl rfl (by simp [HoldsOp]) hn
-      · cases h
-    | succ n =>
-      cases n with
-      | zero =>
-        simp only [opStep] at h
-        generalize (RawList.extend {} (cells a).raw.elems) = pr at h
-        obtain ⟨acc', re⟩ := pr
-        cases h
-        exact ownerOK_release rfl (fun l' hl' => (hown l' hl').symm)
-      | succ m =>
-        cases m with
-        | zero =>
-          have hn := none_of (by intro l; simp [HoldsOp])
-          simp only [opStep] at h
-          split at h
-          · generalize (acc.extend (cells b).raw.elems) = pr at h
-            obtain ⟨acc', re⟩ := pr
-            cases h
-            exact ownerOK_same rfl (fun _ => rfl) hn
-          · cases h
-        | succ k => simp [OpPc] at hpc
+    have h' : concatAtomicStep t cells a b pc = some o := by
+      simpa [opStep, Facts.guarded] using h
+    exact concat_owner hpc hown h'
 
-/-- every held mutex is held by a thread standing inside the operation that
-    took it; nobody has stopped at a stale use -/
 def Own (s : State) : Prop :=
   (∀ l u, (s.cells l).owner = some u →
     ∃ op rest, (s.threads u).prog = op :: rest ∧ HoldsOp op (s.threads u).pc l) ∧
@@ -876,9 +993,8 @@ def NeedsOp : Op → Nat → Option Nat
   | .len l, _ => some l
   | .eq a b, 0 => if a = b then none else some (eqFirst Facts.guarded a b)
   | .eq a b, _ => some (eqSecond Facts.guarded a b)
-  | .concat a _, 0 => some a
-  | .concat _ _, 1 => none
-  | .concat _ b, _ => some b
+  | .concat a b, 0 => some (min a b)
+  | .concat a b, 1 => if a = b then none else some (max a b)
   | _, _ => none
 
 theorem opStep_enabled {F : Facts} (hF : F = Facts.guarded) {t : Nat} {cells : Nat → Cell}
@@ -931,12 +1047,14 @@ theorem opStep_enabled {F : Facts} (hF : F = Facts.guarded) {t : Nat} {cells : N
         simp [opStep, hab, this]
     | succ n => have := fr (eqSecond Facts.guarded a b) (by simp [NeedsOp]); simp [opStep, this]
   | concat a b =>
-    cases pc with
-    | zero => have := fr a rfl; simp [opStep, this]
-    | succ n =>
-      cases n with
-      | zero => simp [opStep]
-      | succ m => have := fr b (by simp [NeedsOp]); simp [opStep, this]
+    rcases pc with _ | _ | n
+    · have := fr (min a b) rfl
+      simp [opStep, Facts.guarded, concatAtomicStep, this]
+    · by_cases hab : a = b
+      · simp [opStep, Facts.guarded, concatAtomicStep, hab]
+      · have := fr (max a b) (by simp [NeedsOp, hab])
+        simp [opStep, Facts.guarded, concatAtomicStep, hab, this]
+    · simp [opStep, Facts.guarded, concatAtomicStep]
 
 theorem step_enabled {F : Facts} (hF : F = Facts.guarded) {t : Nat} {s : State} {op : Op}
     {rest : List Op} (hinv : Inv s) (hown : Own s) (hprog : (s.threads t).prog = op :: rest)
@@ -990,7 +1108,7 @@ theorem progress_of_held {F : Facts} (hF : F = Facts.guarded) {s : State} (hinv 
         | (rename_i n; cases n <;> simp [HoldsOp, NeedsOp] at hh hfree)
         | skip
       all_goals
-        simp [eqFirst, eqSecond, Facts.guarded, Op.maxId] at hh hle
+        try simp [eqFirst, eqSecond, Facts.guarded, Op.maxId] at hh hle
         omega
   | succ k ih =>
     intro l hk hl ⟨u, hu⟩
@@ -1008,7 +1126,7 @@ theorem progress_of_held {F : Facts} (hF : F = Facts.guarded) {s : State} (hinv 
           | (rename_i n; cases n <;> simp [HoldsOp, NeedsOp] at hh hneed)
           | skip
         all_goals
-          simp [eqFirst, eqSecond, Facts.guarded] at hh hneed
+          try simp [eqFirst, eqSecond, Facts.guarded] at hh hneed
           omega
       have hsome : ∃ v, (s.cells l2).owner = some v := by
         cases h : (s.cells l2).owner with
